@@ -63,6 +63,18 @@ Theorem allow_ips_never_stored :
     may_store cache_on (rq_method r) (layer_b true true fs errpage r ok) = false.
 Proof. exact allow_ips_never_stored_lemma. Qed.
 
+(** "the answer is the host's 404": for a GET/HEAD of a readable file that is hidden / private, or
+    marked [allow-ips] without listing the client address, the layer below the cache answers status 404
+    with the host's 404 page (whatever the spelling of the path) *)
+Theorem guarded_answer_is_404 :
+  forall (fs : bytes -> option bytes) (errpage : N -> bytes) r t c,
+    served_file (rq_path r) = Ok (Some t) -> fs t = Some c -> get_or_head (rq_method r) = true ->
+    (exists parsed, PresentLine.present_parse c = Ok parsed) ->
+    is_hidden t c = true \/ listed (rq_addr r) (entries_of c) = false ->
+    f_status (layer_b true true fs errpage r true) = 404 /\
+    f_body (layer_b true true fs errpage r true) = errpage 404.
+Proof. exact guarded_answer_is_404_lemma. Qed.
+
 (** The statement is false of the code before the repairs (models selected by the two switches):
     (a) extension lookup on the raw path: [GET /secret%2Eprivate], cache on or off; *)
 Theorem private_spelling_v0_refuted :
